@@ -15,6 +15,47 @@ import (
 
 func init() { register("C15", c15) }
 
+// descrCtx binds the parameters of a closure factory to the arguments of the call being analysed.
+var descrCtx = map[*ssa.Parameter]ssa.Value{}
+
+// searchClosure resolves the op argument of newBuildSearchOpResult: a closure literal, or the
+// result of a factory function of the package that returns one closure; for a factory the
+// parameter bindings are returned so that descr can name the captured values.
+func searchClosure(v ssa.Value) (*ssa.Function, map[*ssa.Parameter]ssa.Value) {
+	if fn := engine.FuncValue(v); fn != nil {
+		return fn, nil
+	}
+	call, ok := v.(*ssa.Call)
+	if !ok {
+		return nil, nil
+	}
+	g := call.Call.StaticCallee()
+	if g == nil || len(g.Blocks) == 0 {
+		return nil, nil
+	}
+	var clo *ssa.Function
+	for _, r := range engine.Returns(g) {
+		if len(r.Results) != 1 {
+			return nil, nil
+		}
+		fn := engine.FuncValue(engine.ResultOf(r, 0))
+		if fn == nil || (clo != nil && clo != fn) {
+			return nil, nil
+		}
+		clo = fn
+	}
+	if clo == nil {
+		return nil, nil
+	}
+	ctx := map[*ssa.Parameter]ssa.Value{}
+	for i, p := range g.Params {
+		if i < len(call.Call.Args) {
+			ctx[p] = call.Call.Args[i]
+		}
+	}
+	return clo, ctx
+}
+
 // ---- expression descriptors ------------------------------------------------------------
 
 // descr renders a value of a search closure as an expression over the closure parameter
@@ -34,6 +75,9 @@ func descr(v ssa.Value, d int) string {
 		}
 		return t.Value.ExactString()
 	case *ssa.Parameter:
+		if a, ok := descrCtx[t]; ok {
+			return descr(a, d+1) // parameter of a closure factory: the argument the builder passed
+		}
 		return t.Name()
 	case *ssa.FreeVar:
 		// captured cell: the value(s) stored into it by the parent
@@ -557,7 +601,7 @@ func c15(c *Ctx) {
 			key := c.name(f) + "|needs"
 			// the closure
 			var clo *ssa.Function
-			if fv := engine.FuncValue(cs.Common().Args[0]); fv != nil {
+			if fv, _ := searchClosure(cs.Common().Args[0]); fv != nil {
 				clo = fv
 			} else {
 				// assigned later: store of a closure into the result's op field
@@ -918,9 +962,10 @@ func c15(c *Ctx) {
 			continue
 		}
 		var clo *ssa.Function
+		var ctx map[*ssa.Parameter]ssa.Value
 		for _, cs := range engine.Calls(builder) {
 			if cs.Common().StaticCallee() == nbr {
-				clo = engine.FuncValue(cs.Common().Args[0])
+				clo, ctx = searchClosure(cs.Common().Args[0])
 			}
 		}
 		if clo == nil {
@@ -928,7 +973,12 @@ func c15(c *Ctx) {
 			continue
 		}
 		ns++
+		descrCtx = ctx
+		if descrCtx == nil {
+			descrCtx = map[*ssa.Parameter]ssa.Value{}
+		}
 		bf := evalClosure(clo)
+		descrCtx = map[*ssa.Parameter]ssa.Value{}
 		if bf.unsupp != "" {
 			R.Fail("R15.4", key, P.Pos(clo.Pos()), "the closure's boolean function cannot be evaluated ("+bf.unsupp+"): undecided")
 			continue
@@ -1000,7 +1050,7 @@ func c15(c *Ctx) {
 		var clo *ssa.Function
 		for _, cs := range engine.Calls(builder) {
 			if cs.Common().StaticCallee() == nbr {
-				clo = engine.FuncValue(cs.Common().Args[0])
+				clo, _ = searchClosure(cs.Common().Args[0])
 			}
 		}
 		key := "meaning of " + tn
